@@ -432,7 +432,14 @@ impl<C: Suite> Sim<C> {
             seq: 0,
             sched: stream(scen.seed, scen.run, "sched"),
             log: Digest::default(),
-            stats: Stats::default(),
+            stats: {
+                let mut st = Stats::default();
+                // the random-source fault "cloned generator state" is in force for the whole run
+                if let Some(m) = scen.extra.get("rng_alias").and_then(|m| m.as_object()) {
+                    *st.faults_fired.entry("rng_state_cloned").or_default() += m.len() as u64;
+                }
+                st
+            },
             history: Vec::new(),
             sent: BTreeMap::new(),
             resend_mismatch: Vec::new(),
